@@ -159,7 +159,7 @@ def do_call(obj, name, args, kwargs, is_str, sink=None):
     if sink is not None:
         for x in a:
             if isinstance(x, (AnsiString, AnsiStr)) and x is not obj:
-                sink.append((x, model.alpha_codes(x), model.canon(x)))
+                sink.append((x, model.freeze_value(x)))
     if name == 'base_str':
         return obj.base_str
     if name == '__iter__':
@@ -246,7 +246,7 @@ def check_call(h, name, args, kwargs):
     if isinstance(v1, AnsiStr):
         v1 = AnsiString(v1)
     v2 = AnsiStr(build(h))
-    snap2 = (str.__str__(v2), model.canon(v2))
+    snap2 = model.freeze_value(v2)
     what = '%s%r%s' % (name, tuple(args), kwargs or '')
     e1 = e2 = None
     r1 = r2 = None
@@ -264,14 +264,11 @@ def check_call(h, name, args, kwargs):
     except Exception as e:  # noqa
         e2 = e
     bad = []
-    for (x, al, cn) in sink:
+    for (x, fz) in sink:
         # an operand handed to an AnsiStr method is still what it was, and (if an AnsiStr) still renders as its payload
-        try:
-            now = (model.alpha_codes(x), model.canon(x))
-        except Exception as ex:  # noqa
-            now = ('unreadable: %s: %s' % (type(ex).__name__, ex), None)
-        if now != (al, cn):
-            bad.append(('twin-argument-changed', '%s changed its %s argument: %r -> %r' % (what, type(x).__name__, al, now[0])))
+        if not model.unchanged(x, fz):
+            bad.append(('twin-argument-changed', '%s changed its %s argument: %s -> %s' % (what, type(x).__name__,
+                                                                                        model.describe_obs(fz[0]), model.describe_obs(model.observe(x)))))
         elif isinstance(x, AnsiStr):
             e = payload_ok(x)
             if e:
@@ -284,7 +281,7 @@ def check_call(h, name, args, kwargs):
     err = compare(r1, r2, what)
     if err:
         bad.append(err)
-    if (str.__str__(v2), model.canon(v2)) != snap2:
+    if not model.unchanged(v2, snap2):
         bad.append(('twin-receiver-changed', '%s changed the AnsiStr receiver' % what))
     return bad, r2
 
